@@ -47,6 +47,7 @@ func checkC17(c *Ctx) {
 		c17Variadic(c, p, m)
 		c17Tags(c, p, m)
 		regOptsIndependent(c, p)
+		regOptsAsGiven(c, p, "R17.5")
 		c09Globals(c, p, m)
 		tagStoresFromRegistration(c, p)
 		// "is gated as the level it is treated as and is routed to the error device if so requested":
@@ -198,12 +199,13 @@ func c17Tables(c *Ctx, p *Prog, m *Model) {
 		}
 		r.Check(ok, "R17.2", "ParseLevel", p.FuncPos(pl), "returns the parse table entry of the (normalised) argument", "ParseLevel does not return the parse-table entry of its argument")
 		// the name table has precedence: any other successful result is produced only after the table missed
-		var early []string
+		var early, earlyFail []string
 		for _, b := range rets {
 			ret := b.Instrs[len(b.Instrs)-1].(*ssa.Return)
-			if len(ret.Results) != 2 || !isNilConst(ret.Results[1]) {
+			if len(ret.Results) != 2 {
 				continue
 			}
+			fails := !isNilConst(ret.Results[1])
 			if ex, isE := ret.Results[0].(*ssa.Extract); isE {
 				if lk, isL := ex.Tuple.(*ssa.Lookup); isL {
 					if gg, isG := globalLoad(lk.X); isG && gg == g {
@@ -222,10 +224,13 @@ func c17Tables(c *Ctx, p *Prog, m *Model) {
 					}
 				}
 			}
-			if !missed {
+			if !missed && fails {
+				earlyFail = append(earlyFail, p.Pos(instrPos(ret)))
+			} else if !missed {
 				early = append(early, p.Pos(instrPos(ret)))
 			}
 		}
+		r.Check(len(earlyFail) == 0, "R17.2", "ParseLevel:fails-only-on-miss", p.FuncPos(pl), "ParseLevel fails only after the name table missed", "ParseLevel can fail without consulting the name table (return at "+strings.Join(earlyFail, ", ")+"): a registered title rejected by that test does not parse although the level prints under it")
 		r.Check(len(early) == 0, "R17.2", "ParseLevel:table-first", p.FuncPos(pl), "every other successful result is produced only after the name table missed", "ParseLevel can succeed without consulting the name table first (return at "+strings.Join(early, ", ")+"): a registered title of that form parses to another level, so the level does not answer to its title and its printed name does not parse back")
 	}
 	if ut := p.Method(p.Slog, "Level", "UnmarshalText"); ut != nil {
@@ -1042,6 +1047,13 @@ func c17Variadic(c *Ctx, p *Prog, m *Model) {
 				}
 			}
 		}
+		if !okDefault {
+			// any other form: the three call forms evaluated - no argument must have the effect of `true`
+			if outs, decided := variadicBoolCases(fn); decided && outs[0] == outs[1] && outs[1] != outs[2] && !strings.Contains(outs[0], "?") {
+				okDefault = true
+				detail = "call forms evaluated"
+			}
+		}
 		r.Check(okDefault, "R17.5", key, p.FuncPos(fn), "no argument means true ("+detail+")", "a ...bool option whose value is not 'on' when called without argument ("+detail+"): the documented call form without argument is a no-op")
 	}
 	if n < 4 {
@@ -1113,6 +1125,7 @@ func intPickDefaultsToTrueBranch(fn *ssa.Function, iff *ssa.If) bool {
 
 func c17Tags(c *Ctx, p *Prog, m *Model) {
 	r := c.R
+	tagLookupHitOnly(c, p, "R17.6")
 	e, pk, err := p.varInit(p.Slog, "shortTagMap")
 	if err != nil {
 		r.Unk("R17.6", "shortTagMap", "-", "%v", err)
@@ -1304,6 +1317,35 @@ func lowerCased(v ssa.Value, depth int) bool {
 			return false
 		}
 		return sliceAllLower(ia.X, depth+1, map[ssa.Value]bool{})
+	case *ssa.Parameter:
+		// the parameter of a private helper: lower-cased at every one of its (static) call sites
+		fn := x.Parent()
+		if fn == nil || lowerProg == nil || ast.IsExported(fn.Name()) || fn.Signature.Recv() != nil && ast.IsExported(fn.Name()) {
+			return false
+		}
+		idx := -1
+		for i, q := range fn.Params {
+			if q == x {
+				idx = i
+			}
+		}
+		n := 0
+		for _, caller := range lowerProg.RepoFuncs() {
+			for _, cs := range callsIn(caller) {
+				if calleeOf(cs) != fn {
+					continue
+				}
+				args := cs.Common().Args
+				if idx < 0 || idx >= len(args) {
+					return false
+				}
+				n++
+				if !lowerCased(args[idx], depth+1) {
+					return false
+				}
+			}
+		}
+		return n > 0
 	}
 	return false
 }
